@@ -24,9 +24,23 @@ verus! {
 
 /*@include units/ids_common/spec.rs @*/
 
+pub mod vx_dc {
+    use vstd::prelude::*;
+    use vstd::slice::*;
+    use std::convert::TryInto;
+    use core::ops::Range;
+    use std::collections::HashMap;
+    use std::collections::BTreeMap;
+    use vstd::std_specs::cmp::PartialEqSpec;
+    use vstd::std_specs::iter::IteratorSpec;
+    use super::*;
+
 /*@include units/dec_comp/env.rs @*/
 
 /*@include units/dec_comp/ids.rs @*/
+
+/*@include units/dec_comp/sv.rs @*/
+}
 
 } // verus!
 fn main() {}
